@@ -650,6 +650,12 @@ def F4(m, R):
         g2 = next((n for n in f.body if isinstance(n, ast.If) and norm(n.test) == 'not ' + sv and any(isinstance(x, ast.Return) for x in n.body)), None)
     ok = g2 is not None and norm(next(x for x in g2.body if isinstance(x, ast.Return)).value) == '(start, end)'
     R.check(ok, f, g2 or f.node, 'empty settings return the normalised range itself', construct=cons)
+    # order of the two arms: `end < start` answers first (both are top-level guards; the empty-settings arm returns (start, end) whatever the range is)
+    if ok and g is not None and g in f.body and g2 in f.body:
+        cons = 'find_settings arm order'
+        R.check(f.body.index(g) < f.body.index(g2), f, g2, 'the end < start arm is decided before the empty-settings arm',
+                'the empty-settings arm `%s` returns before the end < start arm is reached: find_settings([], 5, 2) returns (5, 2), not (None, None)' % short(g2.test),
+                construct=cons)
     # the scan covers exactly the points in [start, end]
     cons = 'find_settings range filter'
     comp = next((n for n in f.walk() if isinstance(n, ast.DictComp) and call_name(n.generators[0].iter) == ro.ITERATOR), None)
